@@ -4,7 +4,7 @@ Pipeline (DESIGN 2.4): TLC enumerates abstract cases and checks Alg within Ref o
 every case is replayed into the real TextFilePatch::apply/rollback (B1); observations that differ from the
 model's unique outcome, and all observations of a seeded random driver on larger inputs, are judged by TLC
 against the property-level relations (B2, Val_Hunks)."""
-import json, os
+import json, os, re
 from vlib import *
 
 INV_PLACE = """
@@ -16,6 +16,7 @@ INVARIANT RollbackIsId
 INVARIANT FuzzMonotone
 INVARIANT Emit
 """
+INV_PLACE_TRIM = INV_PLACE + "INVARIANT TrimAgrees\n"
 VAL_CFG = """
 INIT Init
 NEXT Next
@@ -29,6 +30,24 @@ OWN = {
     'C04': {'tally': ['rollback_panic', 'rollback_mismatch'], 'verdict': []},
     'C20': {'tally': ['fuzz_nonmonotone'], 'verdict': []},
 }
+
+
+def run_tlaps(res):
+    """Unbounded lemmas about the fuzz trimming arithmetic (TrimLemma.tla), proved by TLAPS; MC_Place's invariant
+    TrimAgrees ties the same arithmetic to View.  A failure to prove is a tool problem, never a violation."""
+    import subprocess, tempfile
+    d = tempfile.mkdtemp(prefix='rqverif.tlaps.', dir=SHM)
+    try:
+        shutil.copy(os.path.join(SPEC, 'TrimLemma.tla'), d)
+        p = subprocess.run(['timeout', '300', 'tlapm', '--threads', '4', 'TrimLemma.tla'], cwd=d, stdout=subprocess.PIPE, stderr=subprocess.STDOUT, text=True)
+        m = re.search(r'All (\d+) obligations? proved', p.stdout)
+        if m:
+            res.cov['parts']['tlaps/TrimLemma'] = {'obligations': int(m.group(1)), 'discharged': int(m.group(1)),
+                                                   'theorems': ['NeverAChangedLine', 'AtMostFuzz', 'Monotone', 'MaxUsable', 'BeyondMaxUsableNothingChanges', 'LongerContextTrimmedFirst']}
+        else:
+            res.diagnostics.append('tlapm did not prove TrimLemma: ' + p.stdout[-300:])
+    finally:
+        shutil.rmtree(d, ignore_errors=True)
 
 
 def place_consts(sym='{"a","b"}', maxfile=3, maxctx=2, maxchg=1, maxlimit=2):
@@ -69,7 +88,7 @@ def validate_records(res, prop, recfile, tag, nrec):
 
 def run_model(res, prop, module, consts, tag, work):
     out = os.path.join(work, tag + '.tlc')
-    st = tlc(module, constants=consts, cfg_body=INV_PLACE, out=out, tag=tag)
+    st = tlc(module, constants=consts, cfg_body=INV_PLACE_TRIM if module == 'MC_Place' else INV_PLACE, out=out, tag=tag)
     res.add_tlc(st, tag)
     mis = os.path.join(work, tag + '.mis.ndjson')
     rep = json.loads(rqh(['hunks', out, seed(), mis]))
@@ -338,6 +357,8 @@ def check(prop, tier):
         for module, tag, consts in PLAN[prop][tier]:
             run_model(res, prop, module, consts, tag, work)
         run_random(res, prop, RANDOM[tier], work)
+        if prop in ('C02', 'C20'):
+            run_tlaps(res)
         if prop in ('C02', 'C03'):
             run_textfuzz(res, prop, tier, work)
         if prop == 'C20':
